@@ -785,3 +785,568 @@ Corollary cdict_idempotent : forall x, doc_ok None x = true ->
 Proof.
   intros x W. destruct (cback_cdict_exact x W) as (y & H1 & H2). exists y, x. auto.
 Qed.
+
+(* ------------------------------------------------------------------ more dict lemmas *)
+Definition keys (o : obj) : list string := map fst o.
+
+Lemma jget_none_notin : forall k o, jget k o = None <-> ~ In k (keys o).
+Proof.
+  intros k o; induction o as [|[k' v] t IH]; cbn; [tauto|].
+  destruct (String.eqb k k') eqn:E.
+  - apply String.eqb_eq in E. subst. split; [discriminate|intros H; elim H; now left].
+  - apply String.eqb_neq in E. rewrite IH. split; [intros H [H1|H1]; [congruence|auto]|intros H H1; apply H; now right].
+Qed.
+
+Lemma jdel_notin : forall k o, jget k o = None -> jdel k o = o.
+Proof.
+  intros k o; induction o as [|[k' v] t IH]; cbn; [reflexivity|].
+  destruct (String.eqb k k'); [discriminate|]. intros H. now rewrite IH.
+Qed.
+
+Lemma jset_notin : forall k v o, jget k o = None -> jset k v o = o ++ [(k, v)].
+Proof.
+  intros k v o; induction o as [|[k' v'] t IH]; cbn; [reflexivity|].
+  destruct (String.eqb k k'); [discriminate|]. intros H. now rewrite IH.
+Qed.
+
+Lemma jget_app : forall k a b, jget k (a ++ b) = match jget k a with Some v => Some v | None => jget k b end.
+Proof.
+  intros k a b; induction a as [|[k' v] t IH]; cbn; [reflexivity|].
+  destruct (String.eqb k k'); [reflexivity|exact IH].
+Qed.
+
+Lemma jdel_app : forall k a b, jdel k (a ++ b) = jdel k a ++ jdel k b.
+Proof.
+  intros k a b; induction a as [|[k' v] t IH]; cbn; [reflexivity|].
+  destruct (String.eqb k k'); [exact IH|cbn; now rewrite IH].
+Qed.
+
+Lemma jget_last : forall k v a, jget k a = None -> jget k (a ++ [(k, v)]) = Some v.
+Proof. intros k v a H. rewrite jget_app, H. cbn. now rewrite String.eqb_refl. Qed.
+
+Lemma jdel_last : forall k v a, jget k a = None -> jdel k (a ++ [(k, v)]) = a.
+Proof.
+  intros k v a H. rewrite jdel_app, (jdel_notin _ _ H). cbn. rewrite String.eqb_refl. apply app_nil_r.
+Qed.
+
+Lemma jset_app_notin : forall k v a b, jget k a = None -> jset k v (a ++ b) = a ++ jset k v b.
+Proof.
+  intros k v a b; induction a as [|[k' v'] t IH]; cbn; [reflexivity|].
+  destruct (String.eqb k k'); [discriminate|]. intros H. now rewrite IH.
+Qed.
+
+(* ------------------------------------------------------------------ design bands: ROADM params *)
+Definition db_entry (dv : string * json) : json := JObj [(K_degree, JStr (fst dv)); (K_db, snd dv)].
+
+Lemma fold_back_db_err : forall l e, fold_left back_db_step l (Err e) = Err e.
+Proof. induction l as [|x t IH]; intros e; cbn; [reflexivity|apply IH]. Qed.
+
+Lemma fold_back_db : forall items pre, NoDup (keys (pre ++ items)) ->
+  fold_left back_db_step (map db_entry items) (Ok pre) = Ok (pre ++ items).
+Proof.
+  induction items as [|[du v] t IH]; intros pre H; cbn [map fold_left].
+  - now rewrite app_nil_r.
+  - assert (Hn : jget du pre = None).
+    { apply jget_none_notin. unfold keys in *. rewrite map_app in H. cbn in H.
+      apply NoDup_remove_2 in H. intro Hin. apply H. apply in_or_app. now left. }
+    cbn. rewrite (jset_notin _ _ _ Hn).
+    replace (pre ++ (du, v) :: t) with ((pre ++ [(du, v)]) ++ t) by (rewrite <- app_assoc; reflexivity).
+    apply IH. rewrite <- app_assoc. exact H.
+Qed.
+
+(* params = others ++ [per_degree_design_bands: {degree: bands}] with at least one degree, distinct degrees *)
+Theorem design_band_roundtrip : forall others items,
+  jget K_pddb others = None -> jget K_pddbt others = None -> items <> [] -> NoDup (keys items) ->
+  let p := others ++ [(K_pddb, JObj items)] in
+  exists p', design_band_params p = Ok p' /\ back_design_band_params p' = Ok p.
+Proof.
+  intros others items H1 H2 Hne Hnd p. subst p.
+  unfold design_band_params. rewrite (jget_last _ _ _ H1), (jdel_last _ _ _ H1).
+  assert (Ht : truthy (JObj items) = true) by (destruct items; [now elim Hne|reflexivity]).
+  rewrite Ht. eexists; split; [reflexivity|].
+  rewrite (jset_notin _ _ _ H2). unfold back_design_band_params.
+  rewrite (jget_last _ _ _ H2), (jdel_last _ _ _ H2).
+  assert (Ht2 : truthy (JArr (map (fun dv => JObj [(K_degree, JStr (fst dv)); (K_db, snd dv)]) items)) = true)
+    by (destruct items; [now elim Hne|reflexivity]).
+  rewrite Ht2. cbn [as_arr bind].
+  change (map (fun dv => JObj [(K_degree, JStr (fst dv)); (K_db, snd dv)]) items) with (map db_entry items).
+  rewrite (fold_back_db items []) by exact Hnd. cbn [bind app].
+  destruct items; [now elim Hne|]. now rewrite (jset_notin _ _ _ H1).
+Qed.
+
+(* ------------------------------------------------------------------ per-frequency loss: fibre params *)
+Lemma mapM_nil : forall {A B} (f : A -> res B), mapM f [] = Ok [].
+Proof. reflexivity. Qed.
+
+Lemma mapM_cons : forall {A B} (f : A -> res B) x t,
+  mapM f (x :: t) = let* y := f x in let* t' := mapM f t in Ok (y :: t').
+Proof. reflexivity. Qed.
+
+Lemma pluck_zip2_fst : forall k1 k2 a b, length a = length b -> pluck k1 (zip2 k1 k2 a b) = Ok a.
+Proof.
+  intros k1 k2 a; induction a as [|x t IH]; intros [|y u] H; try discriminate; [reflexivity|].
+  cbn in H. injection H as H. specialize (IH u H). unfold pluck in *. cbn [zip2]. rewrite mapM_cons, IH.
+  cbn [as_obj bind]. unfold jreq. cbn [jget]. rewrite String.eqb_refl. reflexivity.
+Qed.
+
+Lemma pluck_zip2_snd : forall k1 k2 a b, String.eqb k2 k1 = false -> length a = length b ->
+  pluck k2 (zip2 k1 k2 a b) = Ok b.
+Proof.
+  intros k1 k2 a; induction a as [|x t IH]; intros [|y u] Hk H; try discriminate; [reflexivity|].
+  cbn in H. injection H as H. specialize (IH u Hk H). unfold pluck in *. cbn [zip2]. rewrite mapM_cons, IH.
+  cbn [as_obj bind]. unfold jreq. cbn [jget]. rewrite Hk, String.eqb_refl. reflexivity.
+Qed.
+
+Lemma zip2_nonempty : forall k1 k2 a b, length a = length b -> b <> [] -> zip2 k1 k2 a b <> [].
+Proof. intros k1 k2 [|x t] [|y u] H Hn; try discriminate. now elim Hn. Qed.
+
+Theorem loss_coef_roundtrip : forall others fl vl,
+  jget K_loss others = None -> jget K_losspf others = None -> length fl = length vl -> vl <> [] ->
+  let p := others ++ [(K_loss, JObj [("frequency"%string, JArr fl); ("value"%string, JArr vl)])] in
+  exists p', loss_params p = Ok p' /\ back_loss_params p' = Ok p.
+Proof.
+  intros others fl vl H1 H2 Hlen Hne p. subst p.
+  destruct vl as [|v0 vt]; [now elim Hne|]. destruct fl as [|f0 ft]; [discriminate|].
+  unfold loss_params. rewrite (jget_last _ _ _ H1), (jdel_last _ _ _ H1).
+  cbn [jget String.eqb Ascii.eqb Bool.eqb truthy as_iter bind].
+  eexists; split; [reflexivity|].
+  rewrite (jset_notin _ _ _ H2). unfold back_loss_params.
+  rewrite (jget_last _ _ _ H2), (jdel_last _ _ _ H2).
+  cbn [zip2 truthy as_arr bind].
+  change (JObj [("frequency"%string, f0); ("loss_coef_value"%string, v0)] :: zip2 "frequency" "loss_coef_value" ft vt)
+    with (zip2 "frequency" "loss_coef_value" (f0 :: ft) (v0 :: vt)).
+  rewrite (pluck_zip2_fst _ _ _ _ Hlen). cbn [bind].
+  rewrite (pluck_zip2_snd "frequency" "loss_coef_value" _ _ eq_refl Hlen). cbn [bind].
+  now rewrite (jset_notin _ _ _ H1).
+Qed.
+
+(* ------------------------------------------------------------------ Raman coefficient: fibre params *)
+Theorem raman_coef_roundtrip : forall others rf gl fl,
+  jget K_raman others = None -> length fl = length gl -> fl <> [] ->
+  let p := others ++ [(K_raman, JObj [("reference_frequency"%string, rf); ("g0"%string, JArr gl);
+                                      ("frequency_offset"%string, JArr fl)])] in
+  exists p', raman_params p = Ok p' /\ back_raman_params p' = Ok p.
+Proof.
+  intros others rf gl fl H1 Hlen Hne p. subst p.
+  destruct fl as [|f0 ft]; [now elim Hne|]. destruct gl as [|g0 gt]; [discriminate|].
+  unfold raman_params. rewrite (jget_last _ _ _ H1), (jdel_last _ _ _ H1).
+  cbn [key_in jhas jget String.eqb Ascii.eqb Bool.eqb bind as_obj opt_list truthy jreq as_iter].
+  eexists; split; [reflexivity|].
+  rewrite (jset_notin _ _ _ H1). unfold back_raman_params.
+  rewrite (jget_last _ _ _ H1), (jdel_last _ _ _ H1).
+  cbn [key_in jhas jget String.eqb Ascii.eqb Bool.eqb bind as_obj jreq as_arr zip2].
+  change (JObj [("frequency_offset"%string, f0); ("g0"%string, g0)] :: zip2 "frequency_offset" "g0" ft gt)
+    with (zip2 "frequency_offset" "g0" (f0 :: ft) (g0 :: gt)).
+  rewrite (pluck_zip2_snd "frequency_offset" "g0" _ _ eq_refl Hlen). cbn [bind].
+  rewrite (pluck_zip2_fst _ _ _ _ Hlen). cbn [bind].
+  now rewrite (jset_notin _ _ _ H1).
+Qed.
+
+(* ------------------------------------------------------------------ nf_coef / nf_fit_coeff *)
+Definition coef_pairs (i : Z) (l : list json) : list (json * json) :=
+  map (fun it => (match it with JObj ((_, k) :: _) => k | _ => JNull end, it)) (enum_coef i l).
+
+Lemma sort_enum : forall l i, sort_by (coef_pairs i l) = Ok (coef_pairs i l).
+Proof.
+  induction l as [|c t IH]; intros i; [reflexivity|].
+  unfold coef_pairs in *. cbn [enum_coef map sort_by]. rewrite (IH (i + 1)). cbn [bind].
+  destruct t as [|c2 t2]; [reflexivity|].
+  cbn [enum_coef map insert_by fst num_lt bind]. unfold pow10; cbn [Z.of_nat Z.pow].
+  assert (((i + 1) * 1 <? i * 1) = false) as -> by lia. reflexivity.
+Qed.
+
+Lemma enum_pairs_mapM : forall l i,
+  mapM (fun it => let* o := as_obj it in let* k := jreq "coef_order" o in Ok (k, it)) (enum_coef i l)
+  = Ok (coef_pairs i l).
+Proof.
+  induction l as [|c t IH]; intros i; [reflexivity|].
+  cbn [enum_coef]. rewrite mapM_cons, (IH (i + 1)). reflexivity.
+Qed.
+
+Lemma enum_values_mapM : forall l i,
+  mapM (fun p => let* o := as_obj (snd p) in jreq "nf_coef" o) (coef_pairs i l) = Ok l.
+Proof.
+  induction l as [|c t IH]; intros i; [reflexivity|].
+  unfold coef_pairs in *. cbn [enum_coef map]. rewrite mapM_cons, (IH (i + 1)). reflexivity.
+Qed.
+
+Theorem nf_coef_roundtrip : forall key others c0 ct,
+  jget key others = None -> is_dict c0 = false ->
+  let e := others ++ [(key, JArr (c0 :: ct))] in
+  exists e', nf_forth key e = Ok e' /\ nf_back key e' = Ok e.
+Proof.
+  intros key others c0 ct H1 Hd e. subst e.
+  unfold nf_forth. rewrite (jget_last _ _ _ H1), (jdel_last _ _ _ H1). cbn [as_arr bind nth_req nth_error].
+  rewrite Hd. eexists; split; [reflexivity|].
+  rewrite (jset_notin _ _ _ H1). unfold nf_back.
+  rewrite (jget_last _ _ _ H1), (jdel_last _ _ _ H1). cbn [as_arr bind].
+  cbn [enum_coef nth_req nth_error bind is_dict].
+  change (JObj [("coef_order"%string, JNum 0 0); ("nf_coef"%string, c0)] :: enum_coef (0 + 1) ct)
+    with (enum_coef 0 (c0 :: ct)).
+  rewrite enum_pairs_mapM. cbn [bind]. rewrite sort_enum. cbn [bind]. rewrite enum_values_mapM. cbn [bind].
+  now rewrite (jset_notin _ _ _ H1).
+Qed.
+
+(* ------------------------------------------------------------------ Span / SI power range *)
+Definition range_dict (a b c : json) : json :=
+  JObj [("min_value"%string, a); ("max_value"%string, b); ("step"%string, c)].
+
+Lemma range_entry_forth : forall lk dk others a b c,
+  String.eqb lk dk = false -> jget lk others = None -> jget dk others = None ->
+  range_entry lk dk (others ++ [(lk, JArr [a; b; c])]) = Ok (others ++ [(dk, range_dict a b c)]).
+Proof.
+  intros lk dk others a b c Hne H1 H2. unfold range_entry, jhas.
+  assert (Hk : String.eqb dk lk = false) by (rewrite String.eqb_sym; exact Hne).
+  rewrite jget_app, H2. cbn [jget]. rewrite Hk.
+  rewrite (jget_last _ _ _ H1). cbn [as_arr bind nth_req nth_error].
+  rewrite jset_notin by (rewrite jget_app, H2; cbn; now rewrite Hk).
+  rewrite !jdel_app, (jdel_notin _ _ H1). cbn [jdel]. rewrite String.eqb_refl, Hne. now rewrite app_nil_r.
+Qed.
+
+(* a library with ONE Span (resp. SI) entry: the range comes back *)
+Theorem range_roundtrip_single : forall key lk dk dothers others a b c,
+  String.eqb lk dk = false -> jget lk others = None -> jget dk others = None -> jget key dothers = None ->
+  let doc := dothers ++ [(key, JArr [JObj (others ++ [(lk, JArr [a; b; c])])])] in
+  exists doc', on_entries key (range_entry lk dk) doc = Ok doc' /\ back_range_first key lk dk doc' = Ok doc.
+Proof.
+  intros key lk dk dothers others a b c Hne H1 H2 H3 doc. subst doc.
+  assert (Hk : String.eqb dk lk = false) by (rewrite String.eqb_sym; exact Hne).
+  unfold on_entries. rewrite (jget_last _ _ _ H3). cbn [as_arr bind]. rewrite mapM_cons. cbn [as_obj bind].
+  rewrite (range_entry_forth _ _ _ _ _ _ Hne H1 H2), mapM_nil. cbn [bind].
+  eexists; split; [reflexivity|].
+  rewrite jset_app_notin by exact H3. cbn [jset]. rewrite String.eqb_refl.
+  unfold back_range_first. rewrite (jget_last _ _ _ H3). cbn [as_arr bind key_in jhas].
+  unfold jhas. rewrite (jget_last _ _ _ H2). cbn [as_obj bind]. unfold jreq. rewrite (jget_last _ _ _ H2).
+  cbn [bind as_obj range_dict jget String.eqb Ascii.eqb Bool.eqb].
+  rewrite (jset_notin lk) by (rewrite jget_app, H1; cbn; now rewrite Hne).
+  rewrite !jdel_app, (jdel_notin _ _ H2). cbn [jdel]. rewrite String.eqb_refl, Hk, app_nil_r.
+  rewrite jset_app_notin by exact H3. cbn [jset]. rewrite String.eqb_refl. reflexivity.
+Qed.
+
+(* F15: with a second SI entry the round trip is NOT the identity (the code converts entry 0 only) *)
+Definition si_entry (tv : string) : json :=
+  JObj [("type_variety"%string, JStr tv); ("power_dbm"%string, JNum 0 0);
+        ("power_range_db"%string, JArr [JNum 0 0; JNum 0 0; JNum 1 0])].
+Definition two_si_doc : obj := [("SI"%string, JArr [si_entry "default"; si_entry "lband"])].
+
+Theorem range_second_entry_refuted :
+  exists doc doc' doc'', convert_delta_power_range doc = Ok doc' /\ convert_back_delta_power_range doc' = Ok doc''
+                         /\ doc'' <> doc.
+Proof.
+  exists two_si_doc. eexists. eexists. split; [vm_compute; reflexivity|]. split; [vm_compute; reflexivity|].
+  discriminate.
+Qed.
+
+(* F16: RamanFiber raman_efficiency does not come back under its own name *)
+Definition raman_eff_doc : obj :=
+  [("RamanFiber"%string, JArr [JObj [("type_variety"%string, JStr "SSMF");
+      ("raman_efficiency"%string, JObj [("cr"%string, JArr [JNum 0 1; JNum 1 5]);
+                                        ("frequency_offset"%string, JArr [JNum 0 1; JNum 10000000000000 1])])]])].
+
+Theorem raman_efficiency_refuted :
+  exists doc doc' doc'', convert_raman_efficiency doc = Ok doc' /\ convert_back_raman_efficiency doc' = Ok doc''
+                         /\ doc'' <> doc /\
+                         (* and the forward conversion of the result differs: not idempotent *)
+                         convert_raman_efficiency doc'' <> Ok doc'.
+Proof.
+  exists raman_eff_doc. eexists. eexists. split; [vm_compute; reflexivity|]. split; [vm_compute; reflexivity|].
+  split; [discriminate|]. vm_compute. discriminate.
+Qed.
+
+(* ------------------------------------------------------------------ per-degree power targets: ROADM params *)
+Definition blk (e : string) (o : option obj) : obj := match o with Some items => [(e, JObj items)] | None => [] end.
+Definition ents (e : string) (o : option obj) : list json :=
+  match o with Some items => degree_entries e items | None => [] end.
+Definition items_ok (o : option obj) : Prop :=
+  match o with Some items => items <> [] /\ NoDup (keys items) | None => True end.
+
+Lemma degree_step_blk : forall E a b o nt,
+  jget E a = None -> jget E b = None -> items_ok o ->
+  degree_step (Ok ((a ++ blk E o ++ b : obj), nt)) E = Ok ((a ++ b : obj), nt ++ ents E o).
+Proof.
+  intros E a b o nt Ha Hb Ho. unfold degree_step. cbn [bind].
+  destruct o as [items|]; cbn [blk ents app].
+  - destruct Ho as [Hne _].
+    rewrite jget_app, Ha. cbn [jget]. rewrite String.eqb_refl.
+    assert (Ht : truthy (JObj items) = true) by (destruct items; [now elim Hne|reflexivity]). rewrite Ht.
+    rewrite jdel_app, (jdel_notin _ _ Ha). cbn [jdel]. rewrite String.eqb_refl, (jdel_notin _ _ Hb). reflexivity.
+  - rewrite jget_app, Ha, Hb. now rewrite app_nil_r.
+Qed.
+
+Definition E1 := "per_degree_pch_out_db"%string.
+Definition E2 := "per_degree_psd_out_mWperGHz"%string.
+Definition E3 := "per_degree_psd_out_mWperSlotWidth"%string.
+
+Lemma jget_blk_other : forall E E' o, String.eqb E E' = false -> jget E (blk E' o) = None.
+Proof. intros E E' [items|] H; cbn; [now rewrite H|reflexivity]. Qed.
+
+(* one power target entry written back into the params *)
+Definition upsert (E du : string) (v : json) (q : obj) : res obj :=
+  match jget E q with
+  | None => Ok (jset E (JObj [(du, v)]) q)
+  | Some (JObj d) => Ok (jset E (JObj (jset du v d)) q)
+  | Some _ => Err "TypeError:item assignment"%string
+  end.
+
+Lemma back_target_entry : forall E, In E eq_types -> forall q du v,
+  back_target (Ok q) (JObj [(K_degree, JStr du); (E, v)]) = upsert E du v q.
+Proof.
+  intros E HE q du v. unfold upsert.
+  destruct HE as [<-|[<-|[<-|[]]]]; unfold back_target; cbn [bind as_obj jreq jget K_degree String.eqb Ascii.eqb Bool.eqb as_key];
+    unfold eq_types; cbn [fold_left]; unfold back_target_step;
+    cbn [bind jget K_degree String.eqb Ascii.eqb Bool.eqb];
+    match goal with |- context [jget ?e q] => destruct (jget e q) as [[| | | | |d]|] end; reflexivity.
+Qed.
+
+Lemma fold_back_target_err : forall l e, fold_left back_target l (Err e) = Err e.
+Proof. induction l as [|x t IH]; intros e; cbn; [reflexivity|apply IH]. Qed.
+
+Lemma fold_upsert_more : forall E, In E eq_types -> forall items a pre,
+  jget E a = None -> NoDup (keys (pre ++ items)) ->
+  fold_left back_target (degree_entries E items) (Ok (a ++ [(E, JObj pre)])) = Ok (a ++ [(E, JObj (pre ++ items))]).
+Proof.
+  intros E HE items; induction items as [|[du v] t IH]; intros a pre Ha Hnd; cbn [degree_entries map fold_left].
+  - now rewrite app_nil_r.
+  - cbn [fst snd]. rewrite (back_target_entry E HE). unfold upsert. rewrite (jget_last _ _ _ Ha).
+    assert (Hn : jget du pre = None).
+    { apply jget_none_notin. unfold keys in *. rewrite map_app in Hnd. cbn in Hnd.
+      apply NoDup_remove_2 in Hnd. intro Hin. apply Hnd. apply in_or_app. now left. }
+    rewrite (jset_notin _ _ _ Hn), jset_app_notin by exact Ha. cbn [jset]. rewrite String.eqb_refl.
+    change (map (fun dv => JObj [(K_degree, JStr (fst dv)); (E, snd dv)]) t) with (degree_entries E t).
+    etransitivity; [apply (IH a (pre ++ [(du, v)]) Ha); rewrite <- app_assoc; exact Hnd|].
+    now rewrite <- app_assoc.
+Qed.
+
+Lemma fold_upsert_block : forall E, In E eq_types -> forall o a,
+  jget E a = None -> items_ok o ->
+  fold_left back_target (ents E o) (Ok a) = Ok (a ++ blk E o : obj).
+Proof.
+  intros E HE [items|] a Ha Ho; cbn [ents blk]; [|now rewrite app_nil_r].
+  destruct Ho as [Hne Hnd]. destruct items as [|[du v] t]; [now elim Hne|].
+  cbn [degree_entries map fold_left fst snd]. rewrite (back_target_entry E HE). unfold upsert. rewrite Ha.
+  rewrite (jset_notin _ _ _ Ha).
+  change (map (fun dv => JObj [(K_degree, JStr (fst dv)); (E, snd dv)]) t) with (degree_entries E t).
+  exact (fold_upsert_more E HE t a [(du, v)] Ha Hnd).
+Qed.
+
+(* params = others ++ [pch targets] ++ [psd targets] ++ [psw targets] (each optional, non-empty, distinct degrees) *)
+Theorem degree_roundtrip : forall others o1 o2 o3,
+  jget E1 others = None -> jget E2 others = None -> jget E3 others = None -> jget K_pdt others = None ->
+  items_ok o1 -> items_ok o2 -> items_ok o3 ->
+  let p := others ++ blk E1 o1 ++ blk E2 o2 ++ blk E3 o3 in
+  exists p', degree_params p = Ok p' /\ back_degree_params p' = Ok p.
+Proof.
+  intros others o1 o2 o3 H1 H2 H3 H4 K1 K2 K3 p. subst p.
+  unfold degree_params, eq_types. cbn [fold_left]. fold E1 E2 E3.
+  rewrite (degree_step_blk E1 others (blk E2 o2 ++ blk E3 o3) o1 [] H1)
+    by (try exact K1; rewrite jget_app, !jget_blk_other by reflexivity; reflexivity).
+  rewrite (degree_step_blk E2 others (blk E3 o3) o2 _ H2) by (try exact K2; now rewrite jget_blk_other).
+  replace (others ++ blk E3 o3) with (others ++ blk E3 o3 ++ []) by now rewrite app_nil_r.
+  rewrite (degree_step_blk E3 others [] o3 _ H3) by (try exact K3; reflexivity).
+  cbn [bind app]. rewrite app_nil_r, <- (app_assoc (ents E1 o1)).
+  destruct (ents E1 o1 ++ ents E2 o2 ++ ents E3 o3) as [|t0 tr] eqn:En.
+  - (* no target at all *)
+    exists others. split; [reflexivity|].
+    assert (o1 = None /\ o2 = None /\ o3 = None) as (-> & -> & ->).
+    { destruct o1 as [[|? ?]|]; [destruct K1; congruence|discriminate|].
+      destruct o2 as [[|? ?]|]; [destruct K2; congruence|discriminate|].
+      destruct o3 as [[|? ?]|]; [destruct K3; congruence|discriminate|]. auto. }
+    cbn [blk app]. rewrite app_nil_r. unfold back_degree_params. now rewrite H4.
+  - eexists; split; [reflexivity|]. rewrite <- En.
+    rewrite (jset_notin _ _ _ H4). unfold back_degree_params. rewrite (jget_last _ _ _ H4), (jdel_last _ _ _ H4).
+    assert (Ht : truthy (JArr (ents E1 o1 ++ ents E2 o2 ++ ents E3 o3)) = true) by now rewrite En.
+    rewrite Ht. cbn [as_arr bind].
+    assert (In1 : In E1 eq_types) by (now left).
+    assert (In2 : In E2 eq_types) by (right; now left).
+    assert (In3 : In E3 eq_types) by (right; right; now left).
+    rewrite !fold_left_app.
+    rewrite (fold_upsert_block E1 In1 o1 others H1 K1).
+    rewrite (fold_upsert_block E2 In2 o2 _) by (try exact K2; rewrite jget_app, H2; now apply jget_blk_other).
+    rewrite (fold_upsert_block E3 In3 o3 _)
+      by (try exact K3; rewrite !jget_app, H3, !jget_blk_other by reflexivity; reflexivity).
+    now rewrite <- !app_assoc.
+Qed.
+
+(* ------------------------------------------------------------------ the generic layer of yang_to_legacy o legacy_to_yang *)
+Lemma mapM_map_commute : forall {A B} (f : A -> res B) (h : A -> A) (h' : B -> B) l l',
+  Forall (fun x => forall z, f x = Ok z -> f (h x) = Ok (h' z)) l ->
+  mapM f l = Ok l' -> mapM f (map h l) = Ok (map h' l').
+Proof.
+  intros A B f h h' l; induction l as [|x t IH]; intros l' HF H.
+  - cbn in H. injection H as <-. reflexivity.
+  - inversion HF as [|? ? Hx Ht]; subst. rewrite mapM_cons in H.
+    destruct (f x) as [y|] eqn:Ey; [|discriminate]. cbn [bind] in H.
+    destruct (mapM f t) as [t'|] eqn:Et; [|discriminate]. cbn [bind] in H. injection H as <-.
+    cbn [map]. rewrite mapM_cons, (Hx y eq_refl). cbn [bind]. rewrite (IH t' Ht eq_refl). reflexivity.
+Qed.
+
+Lemma py_float_scalar : forall s z, py_float s = Ok z -> empty_to_none z = z.
+Proof.
+  intros s z H. unfold py_float in H.
+  destruct (strip_sign (list_ascii_of_string s)) as [neg body].
+  destruct (split_dot body) as [ip fp].
+  destruct (ip ++ match fp with Some f => f | None => [] end) as [|c t]; [discriminate|].
+  destruct (val_acc 0 (c :: t)); [|discriminate]. injection H as <-.
+  unfold norm_float. destruct (length _); [reflexivity|]. destruct (strip0 _ _); reflexivity.
+Qed.
+Lemma py_int_scalar : forall s z, py_int s = Ok z -> empty_to_none z = z.
+Proof.
+  intros s z H. unfold py_int in H.
+  destruct (strip_sign (list_ascii_of_string s)) as [neg body].
+  destruct body as [|c t]; [discriminate|]. destruct (val_acc 0 (c :: t)); [|discriminate].
+  injection H as <-. reflexivity.
+Qed.
+
+Lemma cb_elem_null : forall c x, cb_elem c x = Ok JNull -> x = JNull.
+Proof.
+  intros c x H. destruct x as [| | | s | l | o]; try reflexivity; try discriminate.
+  - cbn in H. destruct (in_none_m1 c); [discriminate|].
+    pose proof (py_float_scalar s JNull H) as _. unfold py_float in H.
+    destruct (strip_sign _) as [neg body]. destruct (split_dot body) as [ip fp].
+    destruct (ip ++ _); [discriminate|]. destruct (val_acc _ _); [|discriminate]. injection H as H.
+    unfold norm_float in H. destruct (length _); [discriminate|]. destruct (strip0 _ _); discriminate.
+  - unfold cb_elem in H. rewrite (cb_arr_eq c l) in H. destruct (mapM (cb_elem c) l); discriminate.
+  - unfold cb_elem in H. rewrite cb_obj_eq in H. destruct (mapM _ o); discriminate.
+Qed.
+
+Lemma cb_e2n : forall y,
+  (forall c z, convert_back_fd c y = Ok z -> convert_back_fd c (empty_to_none y) = Ok (empty_to_none z)) /\
+  (forall c z, cb_elem c y = Ok z -> cb_elem c (empty_to_none y) = Ok (empty_to_none z)).
+Proof.
+  induction y as [| | | s |l IH|o IH] using json_ind'.
+  - split; intros c z H; cbn in *; injection H as <-; reflexivity.
+  - split; intros c z H; cbn in *; injection H as <-; reflexivity.
+  - split; intros c z H; cbn in *; injection H as <-; reflexivity.
+  - split; intros c z H.
+    + cbn [empty_to_none]. rewrite H. f_equal. symmetry. cbn in H. destruct c as [f|]; [|injection H as <-; reflexivity].
+      destruct (0 <? f); [exact (py_float_scalar _ _ H)|]. destruct (f <? 0); [injection H as <-; reflexivity|].
+      exact (py_int_scalar _ _ H).
+    + cbn [empty_to_none]. rewrite H. f_equal. symmetry. cbn in H.
+      destruct (in_none_m1 c); [injection H as <-; reflexivity|exact (py_float_scalar _ _ H)].
+  - (* arrays *)
+    assert (Main : forall c z, convert_back_fd c (JArr l) = Ok z ->
+                               convert_back_fd c (empty_to_none (JArr l)) = Ok (empty_to_none z)).
+    { intros c z H. destruct (single_null_dec l) as [->|Hl].
+      - cbn in H. injection H as <-. reflexivity.
+      - rewrite cb_arr_eq in H. destruct (mapM (cb_elem c) l) as [l'|] eqn:El; [|discriminate].
+        cbn [bind] in H. injection H as <-.
+        rewrite e2n_arr by exact Hl. rewrite cb_arr_eq.
+        assert (HF : Forall (fun x => forall z, cb_elem c x = Ok z -> cb_elem c (empty_to_none x) = Ok (empty_to_none z)) l).
+        { rewrite Forall_forall in *. intros x Hx z Hz. exact (proj2 (IH x Hx) c z Hz). }
+        rewrite (mapM_map_commute _ _ _ _ _ HF El). cbn [bind]. f_equal. symmetry. apply e2n_arr.
+        (* l' is not [null] *)
+        intro Hc. subst l'. destruct l as [|x [|y t]].
+        + cbn in El. discriminate.
+        + rewrite mapM_cons in El. destruct (cb_elem c x) as [x'|] eqn:Ex; [|discriminate].
+          cbn in El. injection El as ->. apply cb_elem_null in Ex. subst. now elim Hl.
+        + rewrite !mapM_cons in El. destruct (cb_elem c x); [|discriminate]. cbn [bind] in El.
+          destruct (cb_elem c y); [|discriminate]. cbn [bind] in El.
+          destruct (mapM (cb_elem c) t); [|discriminate]. discriminate. }
+    split; [exact Main|]. intros c z H. destruct (single_null_dec l) as [->|Hl].
+    + cbn in H. injection H as <-. reflexivity.
+    + rewrite e2n_arr by exact Hl. change (cb_elem c (JArr (map empty_to_none l))) with (convert_back_fd c (JArr (map empty_to_none l))).
+      rewrite <- (e2n_arr l Hl). apply Main. exact H.
+  - (* objects *)
+    assert (Main : forall c z, convert_back_fd c (JObj o) = Ok z ->
+                               convert_back_fd c (empty_to_none (JObj o)) = Ok (empty_to_none z)).
+    { intros c z H. rewrite cb_obj_eq in H.
+      destruct (mapM (fun kv => let* v' := convert_back_fd (prec (fst kv)) (snd kv) in Ok (fst kv, v')) o) as [o'|] eqn:Eo;
+        [|discriminate].
+      cbn [bind] in H. injection H as <-. cbn [empty_to_none]. rewrite cb_obj_eq.
+      assert (HF : Forall (fun kv => forall z,
+                   (let* v' := convert_back_fd (prec (fst kv)) (snd kv) in Ok (fst kv, v')) = Ok z ->
+                   (let* v' := convert_back_fd (prec (fst ((fun kv => (fst kv, empty_to_none (snd kv))) kv)))
+                                 (snd ((fun kv => (fst kv, empty_to_none (snd kv))) kv)) in
+                    Ok (fst ((fun kv => (fst kv, empty_to_none (snd kv))) kv), v'))
+                   = Ok ((fun kv => (fst kv, empty_to_none (snd kv))) z)) o).
+      { rewrite Forall_forall in *. intros kv Hkv z Hz. cbn [fst snd].
+        destruct (convert_back_fd (prec (fst kv)) (snd kv)) as [v'|] eqn:Ev; [|discriminate].
+        cbn [bind] in Hz. injection Hz as <-. rewrite (proj1 (IH kv Hkv) _ _ Ev). reflexivity. }
+      rewrite (mapM_map_commute _ _ _ _ _ HF Eo). reflexivity. }
+    split; [exact Main|exact Main].
+Qed.
+
+Lemma doc_ok_n2e : forall x c, doc_ok c x = true -> doc_ok c (none_to_empty x) = true.
+Proof.
+  induction x as [| | | |l IH|o IH] using json_ind'; intros c W; try exact W; try reflexivity.
+  - destruct (single_null_dec l) as [->|Hl]; [reflexivity|]. rewrite n2e_arr by exact Hl.
+    cbn in *. rewrite forallb_forall in *. rewrite Forall_forall in IH. intros x Hx.
+    apply in_map_iff in Hx as (x0 & <- & Hx0). apply IH; auto.
+  - cbn in *. rewrite forallb_forall in *. rewrite Forall_forall in IH. intros kv Hkv.
+    apply in_map_iff in Hkv as (kv0 & <- & Hkv0). cbn [fst snd]. apply IH; auto.
+Qed.
+
+(* legacy value -> none_to_empty -> convert_dict -> (YANG text) -> empty_to_none -> convert_back -> same value *)
+Theorem generic_roundtrip : forall d c, legacy_nulls_ok d = true -> doc_ok c d = true ->
+  exists y, convert_dict_fd (dflt c) (none_to_empty d) = Ok y /\
+            convert_back_fd c (empty_to_none y) = Ok d.
+Proof.
+  intros d c Hn W. pose proof (doc_ok_n2e d c W) as W'.
+  destruct (cd_cb_main _ c (doc_ok_loose _ _ W')) as (y & H1 & H2 & _).
+  exists y. split; [exact H1|].
+  rewrite (proj1 (cb_e2n y) c _ H2), quant_doc_exact by exact W'. now rewrite e2n_n2e.
+Qed.
+
+(* ------------------------------------------------------------------ whole documents: sim-params and spectrum *)
+Lemma jget_map_val : forall (f : json -> json) k o,
+  jget k (map (fun kv => (fst kv, f (snd kv))) o) = option_map f (jget k o).
+Proof.
+  intros f k o; induction o as [|[k' v] t IH]; cbn; [reflexivity|].
+  destruct (String.eqb k k'); [reflexivity|exact IH].
+Qed.
+Lemma jhas_map_val : forall (f : json -> json) k o, jhas k (map (fun kv => (fst kv, f (snd kv))) o) = jhas k o.
+Proof. intros f k o. unfold jhas. rewrite jget_map_val. now destruct (jget k o). Qed.
+Lemma any_key_map_val : forall (f : json -> json) ks o,
+  any_key ks (map (fun kv => (fst kv, f (snd kv))) o) = any_key ks o.
+Proof.
+  intros f ks o. unfold any_key. induction ks as [|k t IH]; cbn; [reflexivity|]. now rewrite jhas_map_val, IH.
+Qed.
+
+(* a legacy simulation-parameter document: none of the keys that select an earlier branch of the dispatch *)
+Definition is_sim_params (o : obj) : bool :=
+  negb (jhas K_elements o) && negb (jhas TOPO_NMSP o) && negb (any_key EQPT_TYPES o) && negb (jhas EQPT_NMSP o)
+  && negb (jhas "path-request" o) && negb (jhas SERV_NMSP o) && negb (any_key EDFA_CONFIG_KEYS o)
+  && negb (jhas EDFA_CONFIG_NMSP o) && negb (jhas "spectrum" o) && any_key SIM_PARAMS_KEYS o.
+
+Theorem y2l_l2y_sim_params : forall o,
+  is_sim_params o = true -> legacy_nulls_ok (JObj o) = true -> doc_ok (prec SIM_PARAMS_NMSP) (JObj o) = true ->
+  exists y, legacy_to_yang (JObj o) = Ok y /\ yang_to_legacy y = Ok (JObj o).
+Proof.
+  intros o Hs Hn W. unfold is_sim_params in Hs.
+  repeat (apply andb_true_iff in Hs as [Hs ?]).
+  repeat match goal with H : negb _ = true |- _ => apply negb_true_iff in H end.
+  destruct (generic_roundtrip (JObj o) (prec SIM_PARAMS_NMSP) Hn W) as (y0 & G1 & G2).
+  exists (JObj [(SIM_PARAMS_NMSP, y0)]). split.
+  - unfold legacy_to_yang. cbn [none_to_empty as_obj bind].
+    rewrite !jhas_map_val, !any_key_map_val.
+    repeat match goal with H : _ = false |- _ => rewrite H end.
+    match goal with H : any_key SIM_PARAMS_KEYS o = true |- _ => rewrite H end.
+    cbn [bind]. unfold convert_dict. rewrite cd_obj_eq, mapM_cons, mapM_nil. cbn [fst snd].
+    rewrite prec_d_dflt. cbn [none_to_empty] in G1. rewrite G1. reflexivity.
+  - unfold yang_to_legacy, convert_back. cbn [empty_to_none map fst snd]. rewrite cb_obj_eq, mapM_cons, mapM_nil.
+    cbn [fst snd]. rewrite G2. cbn [bind as_obj]. reflexivity.
+Qed.
+
+Theorem y2l_l2y_spectrum : forall v,
+  legacy_nulls_ok v = true -> doc_ok (prec SPECTRUM_NMSP) v = true ->
+  let d := JObj [("spectrum"%string, v)] in
+  exists y, legacy_to_yang d = Ok y /\ yang_to_legacy y = Ok d.
+Proof.
+  intros v Hn W d. subst d.
+  destruct (generic_roundtrip v (prec SPECTRUM_NMSP) Hn W) as (y0 & G1 & G2).
+  exists (JObj [(SPECTRUM_NMSP, y0)]). split.
+  - unfold legacy_to_yang. cbn [none_to_empty map fst snd as_obj bind]. cbn [jhas jget any_key existsb
+      K_elements TOPO_NMSP EQPT_TYPES EQPT_NMSP SERV_NMSP EDFA_CONFIG_KEYS EDFA_CONFIG_NMSP String.eqb Ascii.eqb Bool.eqb orb].
+    cbn [jreq jget String.eqb Ascii.eqb Bool.eqb bind].
+    unfold convert_dict. rewrite cd_obj_eq, mapM_cons, mapM_nil. cbn [fst snd].
+    rewrite prec_d_dflt, G1. reflexivity.
+  - unfold yang_to_legacy, convert_back. cbn [empty_to_none map fst snd]. rewrite cb_obj_eq, mapM_cons, mapM_nil.
+    cbn [fst snd]. rewrite G2. cbn [bind as_obj]. reflexivity.
+Qed.
+
+(* l2y (y2l (l2y d)) = l2y d and y2l (l2y (y2l y)) = y2l y, from a round trip *)
+Lemma idempotent_of_roundtrip : forall d,
+  (exists y, legacy_to_yang d = Ok y /\ yang_to_legacy y = Ok d) ->
+  exists y l, legacy_to_yang d = Ok y /\ yang_to_legacy y = Ok l /\ legacy_to_yang l = Ok y /\
+              (exists y', legacy_to_yang l = Ok y' /\ yang_to_legacy y' = Ok l).
+Proof. intros d (y & H1 & H2). exists y, d. repeat split; try assumption. exists y. auto. Qed.
